@@ -88,6 +88,13 @@ impl Block {
 
     pub(crate) fn read(&self, in_block_offset: u64) -> std::io::Result<(Entry, usize)> {
         let mut meta_buffer = vec![0; PREFIX_META_SIZE];
+        // a position at which no header fits any more (e.g. a stale or damaged cursor) holds no entry
+        if in_block_offset.saturating_add(PREFIX_META_SIZE as u64) > self.limit {
+            return Err(std::io::Error::new(
+                std::io::ErrorKind::InvalidData,
+                "read position is past the end of the block",
+            ));
+        }
         let file_offset = self.offset + in_block_offset;
         self.mmap.read(file_offset as usize, &mut meta_buffer);
 
